@@ -85,7 +85,14 @@ def g_night(lon, lat):
     return np.concatenate([c, np.full(c.shape[:2] + (1,), 255, np.uint8)], axis=-1)
 
 
-SAMPLERS = {"night": g_night, "rgba1": g_rgba1, "rgba2": g_rgba2, "cap": g_cap, "scalar": g_scalar, "scalar2": g_scalar2, "rgb": g_rgb, "cheap": g_cheap, "cheap-rgb": g_cheap_rgb}
+def g_inplace(lon, lat):
+    """The scalar sampler written by someone who works in degrees and converts the arrays handed in in place."""
+    np.degrees(lon, out=lon)
+    np.degrees(lat, out=lat)
+    return g_scalar(np.radians(lon), np.radians(lat))
+
+
+SAMPLERS = {"inplace": g_inplace, "night": g_night, "rgba1": g_rgba1, "rgba2": g_rgba2, "cap": g_cap, "scalar": g_scalar, "scalar2": g_scalar2, "rgb": g_rgb, "cheap": g_cheap, "cheap-rgb": g_cheap_rgb}
 
 
 def ref_coords(n, x, y, planetary):
@@ -161,13 +168,37 @@ def serial_case(d, depth, planetary, fmt, mode, part):
 
     root = os.path.join(d, "s")
     shutil.rmtree(root, ignore_errors=True)
-    pio = PyramidIO(root, default_format=fmt)
+    pio = PyramidIO(root, default_format=fmt if mode != "clobber-format-override" else "png")
     side = 2**depth
     allpos = [(depth, x, y) for y in range(side) for x in range(side)]
     expected = {}
+    bystander = None
     try:
         with quiet():
-            if mode in ("clobber", "clobber-rgb", "clobber-night"):
+            if mode == "clobber-inplace-twice":
+                # a sampler that uses the coordinate arrays it is handed as scratch space; the layer sampled twice in
+                # one process (the second sampling sees the same tiles again)
+                toast.sample_layer(pio, SAMPLERS["inplace"], depth, coordsys=cs, parallel=1)
+                toast.sample_layer(pio, SAMPLERS["inplace"], depth, coordsys=cs, parallel=1)
+                for p in allpos:
+                    expected[p] = expected_tile(*p, planetary, "scalar")
+            elif mode == "clobber-format-override":
+                # the pyramid's default format is PNG; both samplings name another format.  The second one is
+                # undefined over whole tiles: their files of THAT format go, a PNG file at such a position stays
+                from toasty.pyramid import Pos
+                from PIL import Image as PI
+
+                toast.sample_layer(pio, SAMPLERS["scalar"], depth, coordsys=cs, format=fmt, parallel=1)
+                gone = [p for p in allpos if np.all(np.isnan(expected_tile(*p, planetary, "cap")))]
+                if gone:
+                    bystander = pio.tile_path(Pos(*gone[0]), format="png")
+                    PI.fromarray(np.full((256, 256, 3), 77, np.uint8)).save(bystander)
+                toast.sample_layer(pio, SAMPLERS["cap"], depth, coordsys=cs, format=fmt, parallel=1)
+                for p in allpos:
+                    e = expected_tile(*p, planetary, "cap")
+                    if not np.all(np.isnan(e)):
+                        expected[p] = e
+            elif mode in ("clobber", "clobber-rgb", "clobber-night"):
                 if mode == "clobber-rgb":
                     sampler = "rgb"  # colour data into a numeric tile format (3-D arrays; FITS rows bottom-up)
                 if mode == "clobber-night":
@@ -281,6 +312,8 @@ def serial_case(d, depth, planetary, fmt, mode, part):
     except Exception as e:
         bad("raises:%s" % type(e).__name__, repr(e))
         return
+    if bystander is not None and not os.path.exists(bystander):
+        bad("file-of-another-format-removed", "a PNG file at a position whose %s tile became entirely undefined was removed" % fmt)
     got_set = tiles_on_disk(root, fmt)
     if got_set != set(expected):
         bad("tile-set", "files for %r missing, unexpected files %r" % (sorted(set(expected) - got_set)[:3], sorted(got_set - set(expected))[:3]))
@@ -442,7 +475,11 @@ def run(tier, seed):
     for depth in depths:
         for planetary in (False, True):
             for fmt in ("png", "npy", "fits"):
-                for mode in ("clobber", "update-all", "update-partial", "clobber-over-existing", "clobber-cap", "cli-allsky", "update-partial-rgba", "builder", "builder-filtered", "clobber-rgb", "clobber-night"):
+                for mode in ("clobber", "update-all", "update-partial", "clobber-over-existing", "clobber-cap", "cli-allsky", "update-partial-rgba", "builder", "builder-filtered", "clobber-rgb", "clobber-night", "clobber-inplace-twice", "clobber-format-override"):
+                    if mode == "clobber-inplace-twice" and (fmt == "png" or depth not in (1, 2)):
+                        continue
+                    if mode == "clobber-format-override" and (fmt == "png" or depth != 2):
+                        continue
                     if mode.startswith("builder") and (depth == 3 or (depth == 0 and mode == "builder-filtered")):
                         continue
                     if mode == "clobber-rgb" and (fmt == "png" or depth not in (1, 2)):
